@@ -84,6 +84,7 @@ def eval (F : Facts) : List String → Option String
   | ["lock-late", _] => some "first:err second:ok"
   | ["route-after-timeout", _] => some "first:err second:ok from-bound-port"
   | ["discover-during-call", _] => some "call:err discovered=1 from-bound-port"
+  | ["discover-parallel", _, _] => some "all-found all=T"
   | ["route-twice", _, _] => some "all-from-bind-address-and-port"
   | ["route-occupied", _, _] => some "occupied nothing-from-another-address-or-port"
   | ["route", _, bind, want] =>
@@ -107,7 +108,8 @@ def judgeDrv (e : String) (impl : List String) (strayFirst : Bool := false) : St
   | [eo, et, er], [io, it, ir] =>
     let cs : List String :=
       (if io = eo then []
-       else if io = "ok" ∨ io = "wrong-result" then [s!"C03 the call reported a result ({io}) on the basis of a datagram it must not accept; expected: {e}"]
+       else if io = "ok" ∨ io = "wrong-result" then [s!"C03 the call reported a result ({io}) on the basis of a datagram it must not accept; expected: {e}",
+                                                    s!"C09 the call reported success ({io}) although no acceptable reply arrived; expected: {e}"]
        else if io = "hung" then [s!"C09 the call did not return; expected: {e}"]
        else [s!"C09 the call failed ({io}) although an acceptable reply arrived before its deadline; expected: {e}"] ++
             (if strayFirst then [s!"C03 the call failed ({io}) instead of skipping the datagrams it must not accept and waiting for the reply that followed; expected: {e}"] else [])) ++
